@@ -115,46 +115,76 @@ inline BCat model_bcat(char32_t c) {
   return B_OTHER;
 }
 
+inline U32 ada_nfc(const U32& s) { U32 c = s; if (!ada::idna::normalize(c)) return U32(); return c; }
+
+// All probes go through results the property is about (is_label_valid verdicts, normalize() output); none relies on
+// the order in which is_label_valid looks at things (no "returns before the Bidi code" assumptions) and none uses
+// is_already_nfc, which is only a shortcut hint.  Probe labels are built so that every test other than the one being
+// probed passes whatever the probed code point is:
+//   * context without any R/AL/AN character (the Bidi rule then does not apply in ada) when c itself is not R/AL/AN,
+//   * an RTL context ALEF ... ALEF (first R, last R, only classes an RTL label may contain) when it is.
 struct AdaTables {
   // 0xFF = not probed yet
   std::vector<uint8_t> mark, virama, ld, rd, bcat;
   AdaTables() : mark(0x110000, 0xFF), virama(0x110000, 0xFF), ld(0x110000, 0xFF), rd(0x110000, 0xFF), bcat(0x110000, 0xFF) {}
-  // combining-mark table: {c, VIRAMA, ZWJ}: rejected at the first-character test iff c is in the table,
-  // otherwise the ZWJ-after-virama rule returns true before anything else is looked at.
-  bool is_mark(char32_t c) {
-    if (c > 0x10FFFF) return false;
-    if (c == ZWNJ || c == ZWJ) return false;  // cannot be isolated (the joiner loop fires on c itself); both are Cf
-    uint8_t& m = mark[c];
-    if (m == 0xFF) m = adav({c, 0x094D, ZWJ}) ? 0 : 1;
-    return m;
+  static constexpr char32_t R0 = 0x05D0 /* R, non-joining */, EN0 = U'0', AN0 = 0x0660, BEH = 0x0628 /* AL, D */, MON = 0x1820 /* L, D */, VIR = 0x094D;
+
+  // Bidi category as far as RFC 5893 can tell it apart; c is never the first character (so the combining-mark test
+  // is not involved) and the labels contain no joiner
+  BCat bidi(char32_t c) {
+    if (c > 0x10FFFF) return B_NOTRTL;
+    if (c == ZWNJ || c == ZWJ) return B_WEAK;  // a joiner cannot be probed apart from the ContextJ rules; both are BN
+    uint8_t& m = bcat[c];
+    if (m == 0xFF) {
+      if (!adav({R0, c, R0})) m = B_NOTRTL;                       // not one of R AL AN EN ES CS ET ON BN NSM
+      else if (!adav({U'a', c, U'a'})) m = adav({R0, EN0, c, R0}) ? B_RAL : B_AN;   // makes an L..L label RTL: R, AL or AN; AN clashes with EN
+      else if (!adav({R0, AN0, c, R0})) m = B_EN;                 // EN clashes with AN
+      else if (adav({R0, c})) m = B_NSM;                          // may follow the final R
+      else m = B_WEAK;
+    }
+    return (BCat)m;
   }
-  // virama table: {'a', c, ZWJ} is accepted iff c is in the table (returns before the Bidi code)
+  bool rtl_char(char32_t c) { BCat b = bidi(c); return b == B_RAL || b == B_AN; }
+  // -1 = cannot be observed: a label starting with an AN character is rejected by the Bidi rule whatever the mark table says
+  int mark_probe(char32_t c) {
+    if (c > 0x10FFFF || c == ZWNJ || c == ZWJ) return -1;
+    uint8_t& m = mark[c];
+    if (m == 0xFF) {
+      BCat b = bidi(c);
+      if (b == B_AN) m = 2;
+      else if (b == B_RAL) m = adav({c, R0}) ? 0 : 1;
+      else m = adav({c, U'a'}) ? 0 : 1;       // no RTL character: only the first-character test can fail ({c,'a'} has a last non-NSM character)
+    }
+    return m == 2 ? -1 : m;
+  }
+  bool is_mark(char32_t c) { int m = mark_probe(c); return m < 0 ? refidna::is_mark(c) : m == 1; }
+  // ZWJ is only allowed after a virama
   bool is_virama(char32_t c) {
     if (c > 0x10FFFF) return false;
     uint8_t& m = virama[c];
-    if (m == 0xFF) m = adav({U'a', c, ZWJ}) ? 1 : 0;
+    if (m == 0xFF) m = (rtl_char(c) ? adav({R0, c, ZWJ, R0}) : adav({U'a', c, ZWJ, U'a'})) ? 1 : 0;
     return m;
   }
-  // joining-type tables: {'a', c, ZWNJ, BEH}: 'a' is not joining, BEH (U+0628) is in ada's D list, so the
-  // verdict is "c in L or D" (unless c is a virama, which short-circuits: then the probe is not informative)
+  // ZWNJ: some L|D character before, some R|D character after (ada's rule); the other characters of the probe are
+  // non-joining ('a', ALEF) or known D (Mongolian A U+1820 / BEH).  Not informative if c is a virama.
   bool is_ld(char32_t c) {
     if (c > 0x10FFFF) return false;
     uint8_t& m = ld[c];
-    if (m == 0xFF) m = (!is_virama(c) && adav({U'a', c, ZWNJ, 0x0628})) ? 1 : 0;
+    if (m == 0xFF) m = (!is_virama(c) && (rtl_char(c) ? adav({R0, c, ZWNJ, BEH}) : adav({U'a', c, ZWNJ, MON}))) ? 1 : 0;
     return m;
   }
-  // {BEH, ZWNJ, c}: accepted iff c in R or D
   bool is_rd(char32_t c) {
     if (c > 0x10FFFF) return false;
     uint8_t& m = rd[c];
-    if (m == 0xFF) m = adav({0x0628, ZWNJ, c}) ? 1 : 0;
+    if (m == 0xFF) m = (c != ZWNJ && c != ZWJ && (rtl_char(c) ? adav({BEH, ZWNJ, c, R0}) : adav({MON, ZWNJ, c, U'a'}))) ? 1 : 0;
     return m;
   }
-  // canonical combining class through is_already_nfc({r_k, c}): with a representative r_k of every class in use the
-  // answer is "no" iff ccc(r_k) > ccc(c) > 0, so ccc(c) is the largest class whose representative may precede c.
+  // canonical combining class from normalize() output: {r, c} comes back as {c, r} iff ccc(r) > ccc(c) > 0.  With a
+  // representative r_k of every class in use, ccc(c) is the largest class whose representative is left in front of c.
   std::vector<std::pair<int, char32_t>> reps;  // (class, representative), ascending; empty = probes unusable
   bool reps_ready = false;
   std::set<char32_t> avoid;  // code points that take part in a composition pair (set by the driver): not usable as representatives
+  static bool reordered(char32_t a, char32_t b) { return ada_nfc(U32{a, b}) == U32{b, a}; }
   void init_reps() {
     if (reps_ready) return;
     reps_ready = true;
@@ -169,25 +199,21 @@ struct AdaTables {
     std::sort(r.begin(), r.end());
     // self-check: ada orders the representatives as the classes say
     for (size_t i = 0; i + 1 < r.size(); i++)
-      if (!ada::idna::is_already_nfc(U32{r[i].second, r[i + 1].second}) || ada::idna::is_already_nfc(U32{r[i + 1].second, r[i].second})) return;
+      if (reordered(r[i].second, r[i + 1].second) || !reordered(r[i + 1].second, r[i].second)) return;
     reps = r;
   }
   std::vector<int16_t> cccv = std::vector<int16_t>(0x110000, -2);
-  // -1 = cannot be probed (c is not NFC by itself, or the probes are unusable)
+  // -1 = cannot be probed (c decomposes, or the probes are unusable)
   int ccc(char32_t c) {
     if (c > 0x10FFFF) return 0;
     int16_t& m = cccv[c];
     if (m != -2) return m;
     init_reps();
-    if (reps.empty() || !ada::idna::is_already_nfc(U32(1, c))) return m = -1;
-    int lo = reps.front().first, hi = reps.back().first;
-    bool after_hi = ada::idna::is_already_nfc(U32{reps.back().second, c});   // false iff 0 < ccc(c) < hi
-    bool before_lo = ada::idna::is_already_nfc(U32{c, reps.front().second});  // false iff ccc(c) > lo
-    if (after_hi && before_lo) return m = 0;   // (ccc(c) == lo == hi is impossible: more than one class in use)
-    if (!before_lo && after_hi) return m = (int16_t)hi;
-    (void)lo;
+    U32 one(1, c);
+    if (reps.empty() || refidna::nfd(one) != one || ada_nfc(one) != one) return m = -1;
+    if (!reordered(reps.back().second, c) && !reordered(c, reps.front().second)) return m = 0;
     int best = 0;
-    for (auto& [k, r] : reps) { if (r == c) { best = k; break; } if (ada::idna::is_already_nfc(U32{r, c})) best = k; else break; }
+    for (auto& [k, r] : reps) { if (r == c) { best = k; break; } if (!reordered(r, c)) best = k; else break; }
     return m = (int16_t)best;
   }
   // what ccc() returns for a code point whose true class is m if ada's table is right (classes without a usable
@@ -195,28 +221,11 @@ struct AdaTables {
   int ccc_expected(int m) {
     init_reps();
     if (m == 0 || reps.empty()) return m == 0 ? 0 : -1;
-    if (m >= reps.back().first) return reps.back().first;
     int best = 0;
     for (auto& [k, r] : reps) if (k <= m) best = k;
     return best;
   }
   bool ccc_wrong(char32_t c) { int a = ccc(c); return a >= 0 && a != ccc_expected(refidna::ccc(c)); }
-  // Bidi category as far as RFC 5893 can tell it apart, through RTL probe labels around ALEF (U+05D0, R)
-  BCat bidi(char32_t c) {
-    if (c > 0x10FFFF) return B_NOTRTL;
-    if (c == ZWNJ || c == ZWJ) return B_WEAK;  // never consulted by ada (joiner code returns first); both are BN
-    uint8_t& m = bcat[c];
-    if (m == 0xFF) {
-      const char32_t R0 = 0x05D0, EN0 = U'0', AN0 = 0x0660;
-      if (!adav({R0, c, R0})) m = B_NOTRTL;
-      else if (adav({c, R0})) m = B_RAL;
-      else if (!adav({R0, EN0, c, R0})) m = B_AN;
-      else if (!adav({R0, AN0, c, R0})) m = B_EN;
-      else if (adav({R0, c})) m = B_NSM;
-      else m = B_WEAK;
-    }
-    return (BCat)m;
-  }
 };
 inline AdaTables& AT() { static AdaTables t; return t; }
 
@@ -227,24 +236,23 @@ inline bool bcat_compatible(BCat ada, BCat model) {
 }
 
 // ------------------------------------------------------------------------------------------ deviations
-enum DevId { D_NFC, D_BIDI_LABEL, D_ZWNJ_LOOSE, D_JOINER_RET, D_PUNY_DELIM, D_T_MARK, D_T_VIRAMA, D_T_JOIN, D_T_BIDI, D_COUNT };
+// Only deviations the pinned tree still has.  The NFC shortcut (precomposed + lower mark), Hangul LV+T, the Punycode leading
+// delimiter and the ContextJ early return were repaired in /repo (6fef521, 3be045b, ba5dd20, d828d8f) and were removed from
+// this list: a recurrence is no longer reproduced by any variant and is reported as unexplained.
+enum DevId { D_NFC, D_BIDI_LABEL, D_ZWNJ_LOOSE, D_T_MARK, D_T_VIRAMA, D_T_JOIN, D_T_BIDI, D_COUNT };
 inline const char* dev_name(int d) {
-  static const char* n[] = {"nfc-as-ada-computes-it", "bidi-rule-only-on-rtl-labels", "zwnj-rule-non-adjacent", "joiner-early-return",
-                            "punycode-leading-delimiter", "table:combining-mark", "table:virama", "table:joining-type", "table:bidi-class"};
+  static const char* n[] = {"nfc-with-ada's-stale-data", "bidi-rule-only-on-rtl-labels", "zwnj-rule-non-adjacent",
+                            "table:combining-mark", "table:virama", "table:joining-type", "table:bidi-class"};
   return n[d];
 }
 
-inline U32 ada_nfc(const U32& s) { U32 c = s; if (!ada::idna::normalize(c)) return U32(); return c; }
 // Why ada::idna::normalize(s) differs from NFC(s), as a narrow shape predicate (first that holds):
-//   "ccc-table-stale"                     s contains a code point whose combining class ada's table gets wrong
-//   "composition-table-stale"             s or NFC(s) contains a composite c that ada cannot rebuild from NFD(c)
-//   "single-cp-not-nfc"                   a code point that is not NFC by itself (composition exclusion /
-//                                          non-starter decomposition) but passes the "already NFC" shortcut
-//   "hangul-lv-then-t"                    LV syllable followed by a trailing-consonant jamo (shortcut says NFC)
-//   "precomposed-then-lower-ccc-mark"     a character whose canonical decomposition ends in a non-starter k,
-//                                          followed (through non-starters only) by a mark m with ccc(m) < ccc(k)
-//                                          (shortcut says NFC)
-//   "other"
+//   "ccc-table-stale"          s contains a code point added after Unicode 15.1 whose combining class ada gets wrong
+//   "composition-table-stale"  s or NFC(s) involves a composite added after Unicode 15.1 that ada cannot rebuild from NFD(c)
+//   "single-cp-not-nfc"        normalize() hands s back unchanged and s contains a code point that is not NFC by itself
+//                              (composition exclusion / non-starter decomposition, decomposition of length >= 2) and that
+//                              normalize() also leaves alone when it stands alone
+//   "ccc-wrong" / "composition-wrong" / "singleton-not-normalised" / "other": everything else (never a known class)
 inline std::string nfc_wrong_shape(const U32& s) {
   for (char32_t c : s) if (AT().ccc_wrong(c)) return newer_than_15_1(c) ? "ccc-table-stale" : "ccc-wrong";
   U32 n = refidna::nfc(s);
@@ -258,26 +266,10 @@ inline std::string nfc_wrong_shape(const U32& s) {
         return newer ? "composition-table-stale" : "composition-wrong";
       }
     }
-  // the remaining shapes are those of the "already NFC" shortcut: it said yes and the string came back unchanged
-  if (!ada::idna::is_already_nfc(s) || ada_nfc(s) != s) return "other";
+  if (ada_nfc(s) != s) return "other";
   for (char32_t c : s) {
     U32 one(1, c);
-    if (refidna::nfc(one) != one && ada::idna::is_already_nfc(one)) return refidna::nfd(one).size() >= 2 ? "single-cp-not-nfc" : "singleton-not-detected";
-  }
-  for (size_t i = 0; i + 1 < s.size(); i++) {
-    char32_t c = s[i];
-    if (c >= 0xAC00 && c < 0xAC00 + 11172 && (c - 0xAC00) % 28 == 0 && s[i + 1] > 0x11A7 && s[i + 1] < 0x11A7 + 28) return "hangul-lv-then-t";
-  }
-  for (size_t i = 0; i + 1 < s.size(); i++) {
-    U32 d = refidna::nfd(U32(1, s[i]));
-    if (d.size() < 2) continue;
-    uint8_t k = refidna::ccc(d.back());
-    if (k == 0) continue;
-    for (size_t j = i + 1; j < s.size(); j++) {
-      uint8_t m = refidna::ccc(s[j]);
-      if (m == 0) break;
-      if (m < k) return "precomposed-then-lower-ccc-mark";
-    }
+    if (refidna::nfc(one) != one && ada_nfc(one) == one) return refidna::nfd(one).size() >= 2 ? "single-cp-not-nfc" : "singleton-not-normalised";
   }
   return "other";
 }
@@ -318,7 +310,7 @@ struct Variant {
   U32 normalize(const U32& s) const { return on(D_NFC) ? ada_nfc(s) : refidna::nfc(s); }
   bool nfc_ok(const U32& s) const { return normalize(s) == s; }
 
-  enum Verdict { INVALID, VALID, VALID_FINAL /* valid, and nothing after the joiner (incl. Bidi) is looked at */ };
+  enum Verdict { INVALID, VALID };
 
   Verdict joiners(const U32& t) const {
     for (size_t i = 0; i < t.size(); i++) {
@@ -346,7 +338,6 @@ struct Variant {
           ok = b && a;
         }
       }
-      if (on(D_JOINER_RET)) return ok ? VALID_FINAL : INVALID;
       if (!ok) return INVALID;
     }
     return VALID;
@@ -391,15 +382,9 @@ struct Variant {
     return true;
   }
 
-  std::optional<U32> decode(const std::string& rest) const {
-    if (on(D_PUNY_DELIM)) {
-      size_t p = rest.rfind('-');
-      if (p == 0) return refidna::punycode_decode(rest.substr(1));  // the lone leading delimiter is swallowed
-    }
-    return refidna::punycode_decode(rest);
-  }
+  std::optional<U32> decode(const std::string& rest) const { return refidna::punycode_decode(rest); }
 
-  struct Lab { U32 text; bool ace = false; Verdict v = VALID; std::string keep; };
+  struct Lab { U32 text; bool ace = false; Verdict v = VALID; };
   // UTS46 processing + ToASCII on a code point string (no URL-Standard carve-out here)
   std::optional<std::string> uts46_to_ascii(const U32& domain) const {
     if (!all_scalar(domain)) return std::nullopt;
@@ -418,8 +403,6 @@ struct Variant {
         std::string rest; for (size_t k = 4; k < l.text.size(); k++) rest.push_back(char(l.text[k]));
         auto d = decode(rest);
         if (!d) return std::nullopt;
-        // an ACE label that only decodes because the stray delimiter is swallowed is passed through as written
-        if (on(D_PUNY_DELIM) && !refidna::punycode_decode(rest)) l.keep = "xn--" + rest;
         l.text = *d;
         if (all_ascii(l.text)) return std::nullopt;  // empty or ASCII-only
         l.v = label(l.text, true);
@@ -440,8 +423,7 @@ struct Variant {
     for (size_t i = 0; i < labs.size(); i++) {
       if (i) out.push_back('.');
       const U32& t = labs[i].text;
-      if (!labs[i].keep.empty()) out += labs[i].keep;
-      else if (all_ascii(t)) { for (char32_t c : t) out.push_back(char(c)); }
+      if (all_ascii(t)) { for (char32_t c : t) out.push_back(char(c)); }
       else { auto e = refidna::punycode_encode(t); if (!e) return std::nullopt; out += "xn--"; out += *e; }
     }
     return out;
@@ -472,7 +454,6 @@ struct Variant {
     Verdict v = label(*d, true);
     if (v == INVALID) return 0;
     if (decoded) *decoded = *d;
-    if (v == VALID_FINAL) return 1;
     if (has_rtl(*d)) return bidi_rule(*d) ? 1 : 0;
     if (bidi_rule(*d)) return 1;
     // fails the rule but is not RTL itself: matters only if the domain is a Bidi domain
@@ -515,8 +496,7 @@ inline unsigned relevant_devs(const U32& domain) {
   bool ace = false;
   U32 m = refidna::map_string_keep(domain);
   for (size_t i = 0; i + 3 < m.size(); i++) if (m[i] == U'x' && m[i + 1] == U'n' && m[i + 2] == U'-' && m[i + 3] == U'-') ace = true;
-  if (joiner || ace) r |= (1u << D_ZWNJ_LOOSE) | (1u << D_JOINER_RET) | (1u << D_T_VIRAMA) | (1u << D_T_JOIN);
-  if (ace) r |= 1u << D_PUNY_DELIM;
+  if (joiner || ace) r |= (1u << D_ZWNJ_LOOSE) | (1u << D_T_VIRAMA) | (1u << D_T_JOIN);
   return r;
 }
 
@@ -550,8 +530,6 @@ inline std::string dev_class(int mask, const U32& domain) {
     }
     case D_BIDI_LABEL: return "validity/bidi-rule-only-on-rtl-labels";
     case D_ZWNJ_LOOSE: return "validity/contextj-zwnj-non-adjacent";
-    case D_JOINER_RET: return "validity/contextj-early-return";
-    case D_PUNY_DELIM: return "punycode/decode-leading-delimiter";
     case D_T_MARK: return "table/combining-mark-stale";
     case D_T_VIRAMA: return "table/virama-stale";
     case D_T_JOIN: return "table/joining-type-stale";
